@@ -2263,6 +2263,9 @@ sq_create_from(const char *name, const char *desc, const char *acc)
   sq->dsq    = NULL;
   sq->ss     = NULL;
   sq->source = NULL;
+  sq->abc    = NULL;   /* text mode, until esl_sq_CreateDigitalFrom() says otherwise */
+  sq->tax_id = -1;     /* as sq_init() / esl_sq_Reuse() do */
+  sq->idx    = -1;
 
   /* optional for extra residue markups */
   sq->nxr    = 0;
